@@ -5,6 +5,7 @@ CONSTANTS
   Classes = {"MA", "MB"}
   InitStreams <- InitStreamsDef
   ApplyCfgs <- ApplyCfgsFull
+  Lifts = {"none"}
   Separator = FALSE
   Hist = TRUE
 SPECIFICATION Spec
